@@ -5,6 +5,7 @@
 mod conv;
 mod engine;
 mod gen;
+mod pduconv;
 mod props;
 
 use engine::{Ctx, Tier};
